@@ -153,33 +153,41 @@ def run(repo, rep, tier):
     rep.fn("Epoch", "Epoch.dow")
     fn = repo.func("Epoch", "Epoch.dow")
     names = [a.arg for a in fn.args.args]
-    outs = outcomes(repo, "Epoch", "Epoch.dow", arg_terms={names[0]: ("epoch", T.sym("J"))})
-    rets = [o for o in outs if o.kind == "ret"]
-    num_rets = [o for o in rets if not any(x[0] in ("list", "tuple") for x in T.walk(o.value))]
-    str_rets = [o for o in rets if any(x[0] in ("list", "tuple") for x in T.walk(o.value))]
+    from ..rules import eval_exact, NotEvaluable
+    flag = names[1] if len(names) > 1 else None
+    at = {names[0]: ("epoch", T.sym("J"))}
+    # the numeric form and the name form are obtained by partial evaluation with the flag bound to False / True
+    t_num = ret_term(repo, "Epoch", "Epoch.dow", arg_terms=dict(at, **({flag: ("bool", False)} if flag else {})))
     ok = False
-    if num_rets:
-        v = num_rets[0].value
-        if v[0] == "call" and v[1] == "floor":
-            v = v[2]
-        if v[0] == "call" and v[1] == "mod" and v[3] == T.num(7):
-            fs = floor_shift(v[2])
-            if fs is not None and fs == (T.sym("J"), Fraction(3, 2)):
-                ok = True
+    v = t_num
+    while v[0] == "call" and v[1] in ("floor", "int") and len(v) == 3:
+        v = v[2]
+    if v[0] == "call" and v[1] == "mod" and v[3] == T.num(7):
+        fs = floor_shift(v[2])
+        if fs is not None and fs == (T.sym("J"), Fraction(3, 2)):
+            ok = True
     if ok:
         rep.ok("R-E4-ID", "Epoch.Epoch.dow", "numeric result == floor(JDE + 1.5) mod 7 (via floor-shift)", obligation=True)
+    elif any(x[0] in ("phi", "loopout", "opaque") for x in T.walk(t_num)):
+        rep.inconcl("R-E4-ID", "Epoch.Epoch.dow", "numeric weekday not reduced to one formula: " + T.show(t_num)[:120])
     else:
-        rep.violation("R-E4-ID", "Epoch.Epoch.dow", "weekday-formula", "numeric weekday is not floor(JDE + 1.5) mod 7: " + (T.show(num_rets[0].value)[:120] if num_rets else "no numeric return"), obligation=True)
-    names_ok = False
-    for o in str_rets:
-        for x in T.walk(o.value):
-            if x[0] in ("list", "tuple") and len(x) == 8:
-                days = [e[1] for e in x[1:] if e[0] == "str"]
-                names_ok = days == ["Sunday", "Monday", "Tuesday", "Wednesday", "Thursday", "Friday", "Saturday"]
-    if names_ok:
-        rep.ok("R-E4-ID", "Epoch.Epoch.dow:names", "day names list indexed by the same number, 0 = Sunday", obligation=True)
+        rep.violation("R-E4-ID", "Epoch.Epoch.dow", "weekday-formula", "numeric weekday is not floor(JDE + 1.5) mod 7: " + T.show(t_num)[:120], obligation=True)
+    want_names = ["Sunday", "Monday", "Tuesday", "Wednesday", "Thursday", "Friday", "Saturday"]
+    if flag is None:
+        rep.inconcl("R-E4-ID", "Epoch.Epoch.dow", "no as_string flag found")
     else:
-        rep.violation("R-E4-ID", "Epoch.Epoch.dow", "weekday-names", "day-name list is not Sunday..Saturday indexed by the weekday number", obligation=True)
+        t_str = ret_term(repo, "Epoch", "Epoch.dow", arg_terms=dict(at, **{flag: ("bool", True)}))
+        got = []
+        try:
+            for k in range(7):
+                got.append(eval_exact(T.subst(t_str, {t_num: T.num(k)}), {}))
+        except NotEvaluable as e:
+            got = None
+            rep.inconcl("R-E4-ID", "Epoch.Epoch.dow", "day names not obtained by indexing a literal table with the weekday number: %s" % e)
+        if got == want_names:
+            rep.ok("R-E4-ID", "Epoch.Epoch.dow:names", "day names indexed by the same number, 0 = Sunday", obligation=True)
+        elif got is not None:
+            rep.violation("R-E4-ID", "Epoch.Epoch.dow", "weekday-names", "weekday numbers 0..6 are named %s, not Sunday..Saturday" % (got,), obligation=True)
     # D2
     datetime_julian(repo, rep)
     d2_formula(repo, rep)
